@@ -38,6 +38,19 @@ Dimension audit families (small, complete over listed spaces):
             alignments through the conversion battery (FASTA names s0..s10).
   reuse     second use of a FastaFile / of the same sequence and matrix objects, and use after a documented refusal,
             compared with fresh objects.
+  skip      every column subset of every end-to-end trace in which a row skips an index (what alignment[mask] and
+            remove_gaps() return): letter-level battery per letter assignment, terminal gaps / remove_gaps / result
+            identity / __getitem__ once per trace; no CIGAR (a skipped index cannot be expressed).
+  derived   op2(op1(x)): the alignment OBJECTS returned by column masks, slices, row selections (reordered, negative
+            stride, row subsets of three rows with their all-gap columns), remove_gaps, remove_terminal_gaps, the FASTA
+            reader, the CIGAR reader (every CIGAR of <= 2 (3) operations) and align_multiple (all ordered 2- and
+            3-tuples over the 6 sequences of length <= 2) go through the conversion battery themselves.
+  values    seed-independent: all ten CIGAR operations (symbol <-> BAM code, P and B refused by the reader), every
+            symbol of the ambiguous nucleotide and the protein alphabet through codes / symbols / identity / '='-CIGAR /
+            FASTA (typed and guessed sequence type).
+  (all families) result identity: alignment[:], [:, :], all-true mask, all rows, remove_gaps, remove_terminal_gaps
+            return a new object with its own sequence list; re-binding edits of the result leave the operand intact.
+            FASTA is read back with '-', '_', both mixed, and two custom additional_gap_chars mixed with '-'.
   msa_alpha align_multiple for matrix alphabets of 254..257 symbols and for uint8-coded sequences with a 300-symbol
             matrix (the neutral gap symbol needs one more symbol code).
 """
@@ -98,6 +111,11 @@ ASSUMPTIONS = [
     "align_multiple with an alphabet whose gap code (= number of matrix symbols) does not fit the dtype of a sequence "
     "code is unspecified (exception or a correct MSA); np.int64 / list gap penalties for align_multiple are not "
     "generated (documented: int or tuple), they are for score()",
+    "results of indexing share the trace buffer with their operand when numpy returns a view (counted as "
+    "result_shares_trace_buffer, unspecified); align_multiple returns copies of the input sequences (counted); only "
+    "object / list identity and re-binding edits are demanded",
+    "index-skipping traces are not written as CIGAR (not expressible); the FASTA sequence type guessed from the letters "
+    "is documented behaviour: for protein symbols only the trace is demanded when no seq_type is given",
     "a row that belongs to an empty sequence is a valid trace row (all gaps): codes, symbols, identity 'all', score with "
     "terminal penalty and CIGAR are demanded, terminal-gap dependent results and FASTA read-back are unspecified",
 ]
@@ -163,6 +181,11 @@ def bounds(tier):
             "large_alphabet": "300 symbols, lengths (2,2), (2,1)" + ("" if q else ", (1,2), (3,2), (1,1,1)"),
             "edge_lengths": "(0,1) (0,2) (1,0) (2,0) (0,1,1) (1,0,2) (2,1,0) (1,) (2,) (3,); empty traces for (2,2) (1,2) (1,1,1) (2,1,1) (2,)",
             "many_rows": [9, 10, 11], "reuse_cases": list(REUSE_CASES),
+            "derived": ("index: lengths (2,2) all traces, (2,1,1) end-to-end; cigar reader <= 2 operations; align_multiple n = 2, 3"
+                        if q else "index: (2,2) (3,2) (2,1,1) all traces, (2,2,1) end-to-end; cigar reader <= 3 operations; "
+                                  "align_multiple n = 2, 3; all 5 palettes"),
+            "values": "10 CIGAR operations, 16 nucleotide + 24 protein alphabet symbols, every seed",
+            "fasta_gap_modes": ["-", "_", "mixed -/_", "custom . ~ mixed with -"],
             "alphabet_sizes": "matrix = sequences: 254, 255, 256, 257; matrix/sequences: 300/200, 300/256, 257/256",
         },
         "msa_gap_penalties": MSA_GAPS,
@@ -2385,8 +2408,10 @@ def shards(tier, seed):
     # second audit
     for p in ([pi] if q else allp):
         out.append({"kind": "values", "pal": p})
-        for lens in ([(2, 2), (2, 1, 1)] if q else [(2, 2), (3, 2), (2, 1, 1), (2, 2, 1)]):
+        for lens in ([(2, 2)] if q else [(2, 2), (3, 2), (2, 1, 1)]):
             out.append({"kind": "derived", "what": "index", "lens": list(lens), "pal": p})
+        # three rows (row subsets keep all-gap columns): end-to-end traces at quick tier
+        out.append({"kind": "derived", "what": "index", "lens": [2, 1, 1] if q else [2, 2, 1], "pal": p, "full_only": True})
         cparts = 2 if q else 8
         for k in range(cparts):
             out.append({"kind": "derived", "what": "cigar", "max_ops": 2 if q else 3, "pal": p, "part": k, "parts": cparts})
